@@ -27,6 +27,14 @@ Definition bounds_of (header : string) : option (list string) :=
   | None => None
   end.
 
+(* what a trait declares: supertraits, parameter bounds, where-predicates, associated types with their
+   bounds, method signatures (by the trait's header, e.g. "pub unsafe trait Concat<T,M>") *)
+Definition trait_header_of (header : string) : option (list string) :=
+  match find (fun r => String.eqb (snd (fst r)) header) gen_trait_headers with
+  | Some (_, _, bs) => Some bs
+  | None => None
+  end.
+
 Definition structural_traits : list string :=
   ["Default"; "Clone"; "PartialEq"; "Eq"; "PartialOrd"; "Ord"; "Debug"; "Hash"]%string.
 
